@@ -354,6 +354,194 @@ impl SubCheck for SinkThrSub {
 }
 
 // ---------------------------------------------------------------------------
+// C17, open/close against writes on other threads: "a closed sink ignores writes
+// until it is reopened". Writer threads write without pause; every written value
+// carries the *gate epoch* its writer had read (SeqCst) just before the write. The
+// reader thread closes the sink, publishes a new epoch e (so a write tagged >= e
+// started after `close` returned and is ordered after it), waits until every
+// writer has completed a write tagged >= e (all earlier writes of that writer are
+// then complete too), and drains the sink: a drained value tagged >= e was
+// accepted by a closed sink. It then publishes another epoch, waits again and
+// reads once more: the sink must be empty. After `open` (epoch published, one
+// completed write per writer awaited) the sink must yield something again. No
+// timing: every wait is for a counter that the writers advance unconditionally.
+
+#[derive(Clone, Debug, Serialize, Deserialize)]
+pub struct SinkGateCase {
+    pub slot: bool,
+    pub cap: u8,
+    pub writers: u8,
+    pub cycles: u8,
+    pub start_closed: bool,
+}
+
+pub struct SinkGateSub;
+
+enum AnySink {
+    Slot(EventSlot<u64>),
+    Buf(EventBuffer<u64>),
+}
+
+impl AnySink {
+    fn next(&mut self) -> Option<u64> {
+        match self {
+            AnySink::Slot(s) => s.next(),
+            AnySink::Buf(b) => b.next(),
+        }
+    }
+    fn open(&mut self) {
+        match self {
+            AnySink::Slot(s) => s.open(),
+            AnySink::Buf(b) => b.open(),
+        }
+    }
+    fn close(&mut self) {
+        match self {
+            AnySink::Slot(s) => s.close(),
+            AnySink::Buf(b) => b.close(),
+        }
+    }
+}
+
+impl SubCheck for SinkGateSub {
+    type Case = SinkGateCase;
+    fn name(&self) -> &'static str {
+        "c17-gate-threads"
+    }
+    fn substrate(&self) -> &'static str {
+        "MT-real-threads"
+    }
+    fn strategy(&self) -> BoxedStrategy<SinkGateCase> {
+        (any::<bool>(), 1u8..6, 1u8..4, prop_oneof![3 => 3u8..30, 1 => 30u8..120], any::<bool>())
+            .prop_map(|(slot, cap, writers, cycles, start_closed)| SinkGateCase { slot, cap, writers, cycles, start_closed })
+            .boxed()
+    }
+    fn eval(&self, c: &SinkGateCase) -> Verdict {
+        use std::sync::atomic::{AtomicBool, AtomicU64, Ordering};
+        use std::sync::Arc;
+        let n = c.writers.clamp(1, 4) as usize;
+        let cap = c.cap.max(1) as usize;
+        let epoch = Arc::new(AtomicU64::new(1));
+        let stop = Arc::new(AtomicBool::new(false));
+        let done: Arc<Vec<AtomicU64>> = Arc::new((0..n).map(|_| AtomicU64::new(0)).collect());
+        let mut sink;
+        let mut hs = Vec::new();
+        macro_rules! spawn_writers {
+            ($w:expr) => {
+                for wi in 0..n {
+                    let w = $w;
+                    let (epoch, stop, done) = (epoch.clone(), stop.clone(), done.clone());
+                    hs.push(std::thread::spawn(move || {
+                        let mut j = 0u64;
+                        while !stop.load(Ordering::SeqCst) {
+                            let e = epoch.load(Ordering::SeqCst);
+                            j = (j + 1) & 0xFFFF_FFFF;
+                            w.write((e << 36) | ((wi as u64) << 32) | j);
+                            done[wi].store(e, Ordering::SeqCst);
+                        }
+                    }));
+                }
+            };
+        }
+        if c.slot {
+            let s: EventSlot<u64> = if c.start_closed { EventSlot::new_closed() } else { EventSlot::new() };
+            spawn_writers!(s.writer());
+            sink = AnySink::Slot(s);
+        } else {
+            let b: EventBuffer<u64> = if c.start_closed { EventBuffer::with_capacity_closed(cap) } else { EventBuffer::with_capacity(cap) };
+            spawn_writers!(b.writer());
+            sink = AnySink::Buf(b);
+        }
+        let kind = if c.slot { "EventSlot" } else { "EventBuffer" };
+        let publish = |epoch: &AtomicU64| epoch.fetch_add(1, Ordering::SeqCst) + 1;
+        let wait_all = |e: u64| {
+            for wi in 0..n {
+                while done[wi].load(Ordering::SeqCst) < e {
+                    std::thread::yield_now();
+                }
+            }
+        };
+        let mut verdict = None;
+        let mut open_now = !c.start_closed;
+        let mut accepted_after_open = 0u32;
+        'cycles: for cyc in 0..c.cycles {
+            if open_now {
+                // let some writes land, then close
+                let e = publish(&epoch);
+                wait_all(e);
+                sink.close();
+                open_now = false;
+            }
+            let ec = publish(&epoch);
+            wait_all(ec);
+            // every write that was in flight when `close` returned is complete: drain
+            let mut drained = 0;
+            while let Some(v) = sink.next() {
+                drained += 1;
+                if v >> 36 >= ec {
+                    verdict = Some(sink_fail(
+                        "closed-sink-accepted-write",
+                        format!("cycle {}: the {} was closed before gate epoch {}, yet it holds a value whose write started at epoch {} (writer {}, #{})", cyc, kind, ec, v >> 36, (v >> 32) & 15, v & 0xFFFF_FFFF),
+                    ));
+                    break 'cycles;
+                }
+                if drained > cap + 2 {
+                    break;
+                }
+            }
+            let e2 = publish(&epoch);
+            wait_all(e2);
+            if let Some(v) = sink.next() {
+                verdict = Some(sink_fail(
+                    "closed-sink-accepted-write",
+                    format!("cycle {}: the {} was closed and drained, {} writer(s) kept writing and it yields a value again (write started at epoch {}, closed before {})", cyc, kind, n, v >> 36, ec),
+                ));
+                break;
+            }
+            sink.open();
+            open_now = true;
+            let eo = publish(&epoch);
+            wait_all(eo);
+            // every writer has completed a write that started after `open` returned; a write is
+            // only abandoned when another write holds the slot, and that one then lands
+            let mut got = None;
+            for _ in 0..10_000 {
+                if let Some(v) = sink.next() {
+                    got = Some(v);
+                    break;
+                }
+                std::thread::yield_now();
+            }
+            match got {
+                Some(_) => accepted_after_open += 1,
+                None => {
+                    verdict = Some(sink_fail(
+                        "reopened-sink-ignores-writes",
+                        format!("cycle {}: the {} was reopened before gate epoch {}, every writer completed writes that started afterwards, and 10000 reads found nothing", cyc, kind, eo),
+                    ));
+                    break;
+                }
+            }
+        }
+        stop.store(true, Ordering::SeqCst);
+        for h in hs {
+            let _ = h.join();
+        }
+        if let Some(v) = verdict {
+            return v;
+        }
+        let mut cl = vec![if c.slot { "event-slot" } else { "event-buffer" }];
+        if n >= 2 {
+            cl.push(">=2-writer-threads");
+        }
+        if c.start_closed {
+            cl.push("created-closed");
+        }
+        Verdict::pass(c.cycles >= 5 && accepted_after_open > 0, cl)
+    }
+}
+
+// ---------------------------------------------------------------------------
 // C20
 
 #[derive(Clone, Debug, Serialize, Deserialize)]
